@@ -68,6 +68,43 @@ Theorem legacy_syntax_cnl util av l :
   (forall mu, get_mev_for_cross_nested_mu util av (CNLegacy l) mu = get_mev_for_cross_nested_mu util av objs mu).
 Proof. repeat split. Qed.
 
+(* the legacy tuples equal nest objects whatever names the objects carry *)
+Lemma map_snd_combine {A B} (a : list A) (b : list B) :
+  List.length a = List.length b -> map snd (combine a b) = b.
+Proof.
+  revert b. induction a as [|x a IH]; intros [|y b]; simpl; intros H; try discriminate; [reflexivity|].
+  f_equal. apply IH. congruence.
+Qed.
+
+Theorem legacy_syntax_named_nested util av l (names : list (option string)) :
+  List.length names = List.length l ->
+  let objs := NNObjNamed (keys util) (combine names (map nn_from_tuple l)) in
+  (forall ch, lognested util av (NNLegacy l) ch = lognested util av objs ch) /\
+  (forall ch, nested util av (NNLegacy l) ch = nested util av objs ch) /\
+  (forall ch mu, lognested_mev_mu util av (NNLegacy l) ch mu = lognested_mev_mu util av objs ch mu) /\
+  (forall ch mu, nested_mev_mu util av (NNLegacy l) ch mu = nested_mev_mu util av objs ch mu) /\
+  get_mev_for_nested util av (NNLegacy l) = get_mev_for_nested util av objs /\
+  (forall mu, get_mev_for_nested_mu util av (NNLegacy l) mu = get_mev_for_nested_mu util av objs mu) /\
+  (forall o, get_mev_generating_for_nested util av (NNLegacy l) o = get_mev_generating_for_nested util av objs o).
+Proof.
+  intros H. unfold NNObjNamed. rewrite map_snd_combine by (now rewrite map_length).
+  apply legacy_syntax_nested.
+Qed.
+
+Theorem legacy_syntax_named_cnl util av l (names : list (option string)) :
+  List.length names = List.length l ->
+  let objs := CNObjNamed (keys util) (combine names (map cn_from_tuple l)) in
+  (forall ch, logcnl util av (CNLegacy l) ch = logcnl util av objs ch) /\
+  (forall ch, cnl util av (CNLegacy l) ch = cnl util av objs ch) /\
+  (forall ch mu, logcnlmu util av (CNLegacy l) ch mu = logcnlmu util av objs ch mu) /\
+  (forall ch mu, cnlmu util av (CNLegacy l) ch mu = cnlmu util av objs ch mu) /\
+  get_mev_for_cross_nested util av (CNLegacy l) = get_mev_for_cross_nested util av objs /\
+  (forall mu, get_mev_for_cross_nested_mu util av (CNLegacy l) mu = get_mev_for_cross_nested_mu util av objs mu).
+Proof.
+  intros H. unfold CNObjNamed. rewrite map_snd_combine by (now rewrite map_length).
+  apply legacy_syntax_cnl.
+Qed.
+
 (* ------------------------------------------------------------------ Nests validation *)
 Lemma In_dedup x l : In x (dedup l) <-> In x l.
 Proof.
